@@ -20,7 +20,14 @@ RULE = ("(a) exact regime: 1-4-d meshes whose cells all have different dyadic si
         "mesh (corners, dims, units, n, bc, subregions), labels, mapping, unit and validity must EQUAL the rational "
         "model (means: equal to the correctly rounded quotient); (b) tolerance regime: nm..km scales, arbitrary "
         "binary64 data, 2^-40 relative bound; (c) malformed directions (unknown, duplicate, non-string, cumulative "
-        "without direction, direction of a 1-d mesh). Oracle on the real code alone: numpy sums with the axis looked up "
+        "without direction, direction of a 1-d mesh); (d) histories: ONE mesh object (one field, or two fields sharing it) "
+        "evaluated, then transformed IN PLACE 2-4 (thorough 2-6) times - mesh.scale / mesh.region.scale with scalar and "
+        "per-axis factors incl. negative and an explicit reference point, mesh.translate / mesh.region.translate, "
+        "field.rotate90 with k in {1,3,-1,2} - and after every step mesh.dV, mesh.cell, integrate(), integrate(d), cumulative, "
+        "mean(), mean(d), mean(list), a chained integral and Mesh.sel(d) are evaluated again on the SAME objects and must equal "
+        "the model run on the field's CURRENT mesh state (exact; 2^-40 after a quarter turn, whose sin/cos leave the dyadic "
+        "grid) and the oracle for that state (sum x current cell measure; mean() unchanged by scaling/translation; integrals "
+        "unchanged by translation), so a value cached across an in-place change shows. Oracle on the real code alone: numpy sums with the axis looked up "
         "by name x cell length from the corners, reduced-mesh geometry, Fubini over all orders, cumulative formula and "
         "last-entry relation, mean = integral / extent, linearity, per-component action, translation invariance, "
         "refusals. non-trivial = at least 2 cells, non-constant data")
